@@ -1510,6 +1510,8 @@ def lookup(py: Any) -> Callable | None:
         return m
     if isinstance(py, types.MethodType) and isinstance(py.__self__, logging.Logger):
         return _noop
+    if isinstance(py, types.MethodType) and type(py.__self__).__module__ == "reprlib":
+        return lambda I, a, k: VStr()  # reprlib.Repr().repr (gallia's g_repr): some display text
     if isinstance(py, types.BuiltinMethodType) and isinstance(getattr(py, "__self__", None),
                                                                logging.Logger):
         return _noop
